@@ -18,7 +18,7 @@ RULE = ("states = distinct (salt, declaration order, weight vector) programs com
         "transitions = evaluations, each compared with md5/UTF-8/sorted-names/first-32-bits recomputed "
         "independently and located in the exact (Fraction) partition; plus known answers of the position function")  # fmt: skip
 
-SALTS = [None, "", "s", "exp-1", "é", "日本", "🎲", "e\u0301", "\u212b\u2126", "\u1100\u1161", "q\u0323\u0307", "S" * 140, "l’été", "“beta”", "„Neu“", "‹x›", "kid's", "exp\\new", "a\\", "\\t", 'say "hi"', "%s", "{0}"]
+SALTS = [None, "", "s", "exp-1", "é", "日本", "🎲", "e\u0301", "\u212b\u2126", "\u1100\u1161", "q\u0323\u0307", "S" * 140, "l’été", "“beta”", "„Neu“", "‹x›", "kid's", "pricing-$$", "save%%", "a{{b}}", "fr&quot;x", "exp\\new", "a\\", "\\t", 'say "hi"', "%s", "{0}"]
 NAMES = ["a", "ab", "b", "ba"]
 # Mixed-case / underscore / digit names.  "Alphabetical order" is taken as code-point order of the
 # field names (what sorted() gives and what every release so far has published): any other order for
